@@ -12,6 +12,7 @@ import (
 	cidlink "github.com/ipld/go-ipld-prime/linking/cid"
 	"github.com/ipld/go-ipld-prime/node/basicnode"
 	"github.com/ipld/go-ipld-prime/traversal/selector"
+	"github.com/libp2p/go-libp2p/core/peer"
 	mh "github.com/multiformats/go-multihash"
 	"pgregory.net/rapid"
 
@@ -43,6 +44,10 @@ type S struct {
 	Subset bool     `json:"subset,omitempty"`
 	ADL    string   `json:"adl,omitempty"`
 	Junk   bool     `json:"junk,omitempty"` // clause body carries an extra, ignored entry
+	// Hook (root only, end-to-end check only): a further incoming-request hook the responder's user registered
+	// beside the default validator: "" none, "pause" pauses the response, "ext" sends extension data; neither
+	// validates, so the default validation alone decides
+	Hook string `json:"hook,omitempty"`
 }
 
 var limits = []int64{-1, 0, 1, 50, 99, 100, 101, 1000000, math.MaxInt64}
@@ -378,8 +383,17 @@ func judgeE2E(s *S) *pbt.Verdict {
 	b, _ := d.Build()
 	var final graphsync.ResponseStatusCode
 	var n_resp int
+	paused := false
 	ro := sim.Run(outerT, func(w *sim.World) {
-		w.AddInstance(scen.RespID, sim.NewStore(b.Data, true)) // default options: default validator registered
+		rs := w.AddInstance(scen.RespID, sim.NewStore(b.Data, true)) // default options: default validator registered
+		switch s.Hook {
+		case "pause":
+			rs.GS.RegisterIncomingRequestHook(func(_ peer.ID, _ graphsync.RequestData, ha graphsync.IncomingRequestHookActions) { ha.PauseResponse() })
+		case "ext":
+			rs.GS.RegisterIncomingRequestHook(func(_ peer.ID, _ graphsync.RequestData, ha graphsync.IncomingRequestHookActions) {
+				ha.SendExtensionData(graphsync.ExtensionData{Name: "test/hello", Data: basicnode.NewString("x")})
+			})
+		}
 		w.AddScripted(scen.ReqID)
 		id, _ := graphsync.ParseRequestID([]byte("c08-request-id-0"))
 		req := gsmsg.NewRequest(id, b.Root, n, 0)
@@ -394,6 +408,9 @@ func judgeE2E(s *S) *pbt.Verdict {
 					if r.Status().IsTerminal() {
 						final = r.Status()
 					}
+					if r.Status() == graphsync.RequestPaused {
+						paused = true
+					}
 				}
 			}
 		}
@@ -403,6 +420,12 @@ func judgeE2E(s *S) *pbt.Verdict {
 	}
 	if n_resp == 0 {
 		return v.Failf("no response to the request")
+	}
+	if s.Hook != "" {
+		v.Label("further-request-hook-" + s.Hook)
+	}
+	if s.bad() && paused {
+		return v.Failf("responder parked (RequestPaused) a request whose selector has an unbounded or >100 recursion instead of rejecting it: %s", s)
 	}
 	if s.bad() && final != graphsync.RequestRejected {
 		return v.Failf("responder answered %s to a selector with an unbounded or >100 recursion: %s", final, s)
@@ -414,6 +437,12 @@ func judgeE2E(s *S) *pbt.Verdict {
 }
 
 func gen(t *rapid.T) *S {
+	s := gen0(t)
+	s.Hook = rapid.SampledFrom([]string{"", "", "pause", "ext"}).Draw(t, "hook")
+	return s
+}
+
+func gen0(t *rapid.T) *S {
 	s := genS(t, 0, false)
 	// one case in eight buries the selector under many nested clauses ("at any nesting depth")
 	if rapid.IntRange(0, 7).Draw(t, "deep") == 0 {
@@ -438,7 +467,7 @@ func gen(t *rapid.T) *S {
 	return s
 }
 
-var def = pbt.Def[*S]{Name: "validator", Gen: gen, Run: judge}
+var def = pbt.Def[*S]{Name: "validator", Gen: gen0, Run: judge}
 var defE2E = pbt.Def[*S]{Name: "responder-status", Gen: gen, Run: judgeE2E}
 
 func TestProp(t *testing.T) {
